@@ -821,6 +821,46 @@ func RuleWriters(r *Report, p *Prog, pkg, typ, field string, allow []string, rul
 	}
 	seen := map[string]bool{}
 	n := 0
+	// callersOf: the functions of the package that call h (anywhere in their body)
+	callersOf := func(h *Func) []*Func {
+		var out []*Func
+		for _, f := range p.Funcs(pkg) {
+			if f.Decl.Body == nil || f == h {
+				continue
+			}
+			if len(AllCalls(f.Info(), f.Decl.Body, func(info *types.Info, c *ast.CallExpr) bool { return Callee(info, c) == types.Object(h.Obj) })) > 0 {
+				out = append(out, f)
+			}
+		}
+		return out
+	}
+	// viaHelper: an UNEXPORTED function outside the table whose every caller is a
+	// table writer (or such a helper again, 3 levels) is an extracted part of those
+	// writers: its stores are attributed to them. Exported functions are entry
+	// points of their own and must be in the table.
+	var viaHelper func(h *Func, depth int) ([]string, bool)
+	viaHelper = func(h *Func, depth int) ([]string, bool) {
+		if depth > 3 || h.Obj == nil || h.Obj.Exported() {
+			return nil, false
+		}
+		cs := callersOf(h)
+		if len(cs) == 0 {
+			return nil, false
+		}
+		var owners []string
+		for _, c := range cs {
+			if allowed[c.Name] {
+				owners = append(owners, c.Name)
+				continue
+			}
+			up, ok := viaHelper(c, depth+1)
+			if !ok {
+				return nil, false
+			}
+			owners = append(owners, up...)
+		}
+		return owners, true
+	}
 	for _, w := range FieldWriters(p, pkg, fv) {
 		n++
 		r.Saw(w.Func)
@@ -829,6 +869,13 @@ func RuleWriters(r *Report, p *Prog, pkg, typ, field string, allow []string, rul
 		}
 		seen[w.Func.Name] = true
 		if !allowed[w.Func.Name] {
+			if owners, ok := viaHelper(w.Func, 1); ok {
+				for _, o := range owners {
+					seen[o] = true
+				}
+				r.Ok(rule, construct, p.Pos(w.Pos), fmt.Sprintf("%s stores to %s.%s on behalf of its only callers %v (unexported helper of table writers)", w.Func.Name, typ, field, owners))
+				continue
+			}
 			r.Bad(rule, construct, "writer:"+w.Func.Name, p.Pos(w.Pos), fmt.Sprintf("%s stores to %s.%s (%s) but is not in the writer table %v", w.Func.Name, typ, field, w.Kind, allow))
 		}
 	}
